@@ -12,17 +12,18 @@
 (*   never precedes the Put it belongs to; no call fails; no thread hangs.  *)
 EXTENDS TraceLib
 
-VARIABLES l, puts, shown
-\* puts  = set of entries acknowledged so far;  shown = sequence of entries presented so far
-vars == <<l, puts, shown>>
+VARIABLES l, puts, begun, shown
+\* puts = entries whose Put returned; begun = entries whose Put was invoked (in the free-running phase a Put's entry can be
+\* flushed, handed over and presented before the writer's own "put" line is written); shown = entries presented so far
+vars == <<l, puts, begun, shown>>
 
-Init == l = 1 /\ puts = {} /\ shown = <<>> /\ RegInit
+Init == l = 1 /\ puts = {} /\ begun = {} /\ shown = <<>> /\ RegInit
 
 Count(x, s) == Cardinality({i \in 1..Len(s) : s[i] = x})
 
 Rules(e) ==
      (IF e.e \in {"put", "flush", "togc", "present", "end"} /\ e.err # "" THEN {"call-failed"} ELSE {})
-  \cup (IF e.e = "present" /\ (\E i \in 1..Len(e.ents) : e.ents[i] \notin puts) THEN {"presented-entry-never-put"} ELSE {})
+  \cup (IF e.e = "present" /\ (\E i \in 1..Len(e.ents) : e.ents[i] \notin begun) THEN {"presented-entry-never-put"} ELSE {})
   \cup (IF e.e = "end" /\ Len(e.stuck) > 0 THEN {"thread-never-returned"} ELSE {})
   \cup (IF e.e = "end" /\ Len(e.stuck) = 0
         THEN LET all == shown \o e.file \o e.gc IN
@@ -36,6 +37,7 @@ Next ==
   /\ LET e == Trace[l] IN
        /\ Flag(e, IF e.e = "reset" THEN {} ELSE Rules(e))
        /\ puts' = (IF e.e = "reset" THEN {} ELSE IF e.e = "put" /\ e.err = "" THEN puts \cup {e.en} ELSE puts)
+       /\ begun' = (IF e.e = "reset" THEN {} ELSE IF e.e = "putb" THEN begun \cup {e.en} ELSE begun)
        /\ shown' = (IF e.e = "reset" THEN <<>> ELSE IF e.e = "present" THEN shown \o e.ents ELSE shown)
   /\ Consumed(l)
   /\ l' = l + 1
